@@ -191,6 +191,8 @@ type result struct {
 	rounds, heldA, heldB int // cross-connection rounds
 
 	convHeld int64 // frames held at the point until the stream's converter had worked the packet off
+
+	visitors, framesSeen, respsSeen int // crowd
 }
 
 // playing is a session in the playing state plus what the executor needs at the end.
@@ -466,7 +468,9 @@ func TestReplayFile(t *testing.T) {
 	}
 	pl := doc.Case.Plan
 	var res *result
-	if pl.Cross != nil {
+	if pl.Crowd != nil {
+		res = runCrowd(t, pl)
+	} else if pl.Cross != nil {
 		res = runCross(t, pl)
 	} else if pl.Transport == "wsp" {
 		res = runWSP(t, pl)
